@@ -93,7 +93,7 @@ pub trait ScopeOps {
     fn with_claim(&self, f: &mut dyn FnMut(&mut dyn ScopeOps));
     fn with_aligned(&mut self, n: usize, scoped: bool, f: &mut dyn FnMut(&mut dyn ScopeOps));
     /// borrow_mut_with_settings to a higher minimum alignment n
-    fn with_bmws(&mut self, n: usize, f: &mut dyn FnMut(&mut dyn ScopeOps));
+    fn with_bmws(&mut self, n: usize, by_value: bool, f: &mut dyn FnMut(&mut dyn ScopeOps));
     /// second claim on a claimed handle: must panic; returns the panic message if it did
     fn claim_again(&self) -> Option<String>;
     /// alloc_iter_mut / alloc_iter_mut_rev with an iterator that claims `hint` elements and yields `n`:
@@ -844,15 +844,15 @@ where
 {
     impl_scope_ops!();
 
-    fn with_bmws(&mut self, n: usize, f: &mut dyn FnMut(&mut dyn ScopeOps)) {
+    fn with_bmws(&mut self, n: usize, by_value: bool, f: &mut dyn FnMut(&mut dyn ScopeOps)) {
         // `MA` is a const generic: the transmutes below are the identity in the branch that is taken
         unsafe {
             match MA {
-                1 => bmws_1::<A, UP, GA, DE, SH, MCS>(std::mem::transmute(self), n, f),
-                2 => bmws_2::<A, UP, GA, DE, SH, MCS>(std::mem::transmute(self), n, f),
-                4 => bmws_4::<A, UP, GA, DE, SH, MCS>(std::mem::transmute(self), n, f),
-                8 => bmws_8::<A, UP, GA, DE, SH, MCS>(std::mem::transmute(self), n, f),
-                _ => bmws_16::<A, UP, GA, DE, SH, MCS>(std::mem::transmute(self), n, f),
+                1 => bmws_1::<A, UP, GA, DE, SH, MCS>(std::mem::transmute(self), n, by_value, f),
+                2 => bmws_2::<A, UP, GA, DE, SH, MCS>(std::mem::transmute(self), n, by_value, f),
+                4 => bmws_4::<A, UP, GA, DE, SH, MCS>(std::mem::transmute(self), n, by_value, f),
+                8 => bmws_8::<A, UP, GA, DE, SH, MCS>(std::mem::transmute(self), n, by_value, f),
+                _ => bmws_16::<A, UP, GA, DE, SH, MCS>(std::mem::transmute(self), n, by_value, f),
             }
         }
     }
@@ -1239,11 +1239,17 @@ macro_rules! def_bmws {
         fn $name<'a, A, const UP: bool, const GA: bool, const DE: bool, const SH: bool, const MCS: usize>(
             s: &mut BumpScope<'a, A, BumpSettings<$ma, UP, GA, true, DE, SH, MCS>>,
             n: usize,
+            by_value: bool,
             f: &mut dyn FnMut(&mut dyn ScopeOps),
         ) where
             A: Flavour + BaseAllocator<Bool<GA>>,
         {
             match n {
+                // by value: an owned scope converted by BumpScope::with_settings
+                $($n if by_value => {
+                    let mut owned = s.by_value().with_settings::<BumpSettings<$n, UP, GA, true, DE, SH, MCS>>();
+                    f(&mut owned)
+                })*
                 $($n => f(s.borrow_mut_with_settings::<BumpSettings<$n, UP, GA, true, DE, SH, MCS>>()),)*
                 _ => panic!("borrow_mut_with_settings cannot lower the minimum alignment"),
             }
@@ -1378,7 +1384,7 @@ where
         // the same vector type as for a scope handle: BumpVec<T, &BumpScope> (through Bump::as_scope)
         self.as_scope().vec_new(esz, eal, c0, wrap, fixed)
     }
-    fn with_bmws(&mut self, n: usize, f: &mut dyn FnMut(&mut dyn ScopeOps)) {
-        self.as_mut_scope().with_bmws(n, f)
+    fn with_bmws(&mut self, n: usize, by_value: bool, f: &mut dyn FnMut(&mut dyn ScopeOps)) {
+        self.as_mut_scope().with_bmws(n, by_value, f)
     }
 }
